@@ -21,10 +21,14 @@ EXPLANATION = (
     "R20.3 mapping keys are honoured: a loop over cfg.items() whose key is unused while the body hands out identities by "
     "iteration order (connect_nic numbering) is order-dependent on the YAML file; R20.4 loaders of one interface agree: "
     "every Node subclass from_config applies the declared operating_state (or leaves it to Node.__init__) and does not "
-    "override it afterwards, the route/default-route parsers of Router and Firewall read the same keys. NOT decided: "
+    "override it afterwards, the route/default-route parsers of Router and Firewall read the same keys; R20.5 sibling "
+    "loader blocks agree: each of the eight ACL blocks (router, wireless router, six firewall lists) takes every add_rule "
+    "argument from the key its siblings use, never a src_ value for a dst_ argument, position = the mapping key, and adds "
+    "to the list the block iterates over; every Network.connect of a node-set adder that declares `bandwidth` passes it; "
+    "R20.6 each episode is built from a freshly parsed / deep-copied scenario dict (the loaders consume theirs). NOT decided: "
     "inventory equality for arbitrary scenario files and behavioural identity under re-serialisation."
 )
-TECHNIQUE = "static: key-guard/read agreement, schema-option reader inventory, local dataflow of declared values into constructors, loader sibling agreement"
+TECHNIQUE = "static: key-guard/read agreement, schema-option reader inventory, local dataflow of declared values into constructors, loader sibling agreement (ACL blocks, node-set links), fresh-dict return check of the episode schedulers"
 ASSUMPTIONS = ["scenario mappings reach from_config as plain dicts in file order (yaml.safe_load)",
                "pydantic ConfigSchema validation rejects unknown keys where extra='forbid'"]
 
@@ -268,8 +272,107 @@ def r20_4(ctx: Ctx) -> None:
                "identical add_route keyword maps" if a == b else f"route parsers differ: {a} vs {b}")
 
 
+def _cfg_keys(e: ast.AST, var: str) -> Set[str]:
+    """String keys read from mapping `var` inside expression e: var["k"], var.get("k"[, d])."""
+    out: Set[str] = set()
+    for x in ast.walk(e):
+        if isinstance(x, ast.Subscript) and unparse(x.value) == var and isinstance(x.slice, ast.Constant) and isinstance(x.slice.value, str):
+            out.add(x.slice.value)
+        if isinstance(x, ast.Call) and isinstance(x.func, ast.Attribute) and x.func.attr == "get" and unparse(x.func.value) == var \
+                and x.args and isinstance(x.args[0], ast.Constant) and isinstance(x.args[0].value, str):
+            out.add(x.args[0].value)
+    return out
+
+
+def r20_5(ctx: Ctx) -> None:
+    """Sibling loader blocks (the router ACL, the wireless router ACL, the six firewall lists; the connect calls of one
+    node-set adder) are copies of one another: each must map the same declared key to the same constructor argument."""
+    ix = ctx.ix
+    ctx.rule("R20.5", "sibling loader blocks agree: ACL rule arguments come from their own keys at their own position in the "
+                      "list the block names; every link of a node set carries the declared bandwidth")
+    sites = []
+    for fn in ix.functions:
+        if isinstance(fn.node, ast.Lambda) or fn.name != "from_config":
+            continue
+        for loop in ast.walk(fn.node):
+            if not (isinstance(loop, ast.For) and isinstance(loop.target, ast.Tuple) and len(loop.target.elts) == 2):
+                continue
+            kvar, vvar = unparse(loop.target.elts[0]), unparse(loop.target.elts[1])
+            for c in calls_in(loop):
+                if call_name(c) == "add_rule" and isinstance(c.func, ast.Attribute):
+                    sites.append((fn, loop, kvar, vvar, c))
+    if len(sites) < 8:
+        raise AnalysisError(f"R20.5: expected the 8 ACL loader blocks (router, wireless router, 6 firewall lists), found {len(sites)}")
+    maps = []
+    for fn, loop, kvar, vvar, c in sites:
+        m = {k.arg: frozenset(_cfg_keys(k.value, vvar)) for k in c.keywords if k.arg}
+        maps.append(m)
+    # reference: per keyword the key set most sites use (confirmed by reading: kw == key except src_ip/dst_ip)
+    ref: Dict[str, frozenset] = {}
+    for kw in sorted({k for m in maps for k in m}):
+        vals = [m.get(kw) for m in maps if kw in m]
+        ref[kw] = max(set(vals), key=vals.count)
+    for (fn, loop, kvar, vvar, c), m in zip(sites, maps):
+        acl = unparse(c.func.value)
+        probs = []
+        for kw, want in ref.items():
+            got = m.get(kw)
+            if got is None:
+                probs.append(f"{kw} is not passed (its siblings read {sorted(want)})")
+            elif got != want:
+                probs.append(f"{kw} is read from {sorted(got) or 'no key'}; its siblings read {sorted(want)}")
+            for pre in ("src_", "dst_"):
+                if kw.startswith(pre) and got and any(not g.startswith(pre) for g in got):
+                    probs.append(f"{kw} takes a value declared for the other end ({sorted(got)})")
+        pos = kwarg(c, "position")
+        if pos is None or unparse(pos) != kvar:
+            probs.append(f"position is {unparse(pos) if pos is not None else 'missing'}, not the mapping key {kvar}")
+        # the list that receives the rules is the one the block iterates over
+        lst = acl.split(".")[-1]
+        src_keys = {x.slice.value for x in ast.walk(loop.iter) if isinstance(x, ast.Subscript) and isinstance(x.slice, ast.Constant)
+                    and isinstance(x.slice.value, str)}
+        named = {k for k in src_keys if k.endswith("_acl")}
+        if named and named != {lst}:
+            probs.append(f"rules declared under {sorted(named)} are added to {lst}")
+        ctx.record("R20.5", ctx.key(fn, f"ACL block -> {acl}"), fn.loc(c), not probs,
+                   f"{len(m)} arguments, each from its own key; position = {kvar}" if not probs else "; ".join(probs))
+    # node-set adders
+    adder = ix.cls("NetworkNodeAdder")
+    n_conn = 0
+    for c in ix.subclasses(adder):
+        schema = next((x for x in c.node.body if isinstance(x, ast.ClassDef) and x.name == "ConfigSchema"), None)
+        if schema is None or not any(isinstance(st, ast.AnnAssign) and isinstance(st.target, ast.Name) and st.target.id == "bandwidth"
+                                     for st in schema.body):
+            continue
+        for f in c.methods.values():
+            if isinstance(f.node, ast.Lambda):
+                continue
+            ld = LocalDefs(f.node)
+            for call in calls_in(f.node):
+                if call_name(call) != "connect":
+                    continue
+                n_conn += 1
+                v = kwarg(call, "bandwidth", 2)
+                txt = unparse(ld.expand(v)) if v is not None else None
+                ok = txt is not None and "bandwidth" in txt and "config" in txt
+                ctx.record("R20.5", ctx.key(f, f"link {unparse(call.args[0])[:40] if call.args else '?'} <-> "
+                                               f"{unparse(call.args[1])[:40] if len(call.args) > 1 else '?'} carries the declared bandwidth"),
+                           f.loc(call), ok, f"connect(..., bandwidth={txt})" if ok else
+                           f"{c.short} declares `bandwidth` but this link is created with "
+                           f"{'bandwidth=' + txt if txt else 'the default of Network.connect'}")
+    ctx.floor("R20.5", "node-set links", n_conn, 5)
+
+
+def r20_6(ctx: Ctx) -> None:
+    from .c04 import r4_4
+    r4_4(ctx, "R20.6")
+
+
+
 def check(ctx: Ctx) -> None:
     r20_1(ctx)
     r20_2(ctx)
     r20_3(ctx)
     r20_4(ctx)
+    r20_5(ctx)
+    r20_6(ctx)
